@@ -5,7 +5,7 @@
 (* authorisers owner, former owner, stranger, nobody; Upgrader: requested version  *)
 (* same / correct / wrong x authorisation coverage (both steps, one step, none,     *)
 (* wrong principal) x migration data well-typed / ill-typed.  Finite state space.   *)
-EXTENDS Upgrade, Json, SequencesExt
+EXTENDS Upgrade, Json, SequencesExt, AuthShapes
 VARIABLE st
 
 Auths == {{"owner0"}, {"bob"}, {"mallory"}, {}}
@@ -16,9 +16,13 @@ Acts(s) ==
     {[name |-> "Upgrade", new |-> f, auth |-> au] : f \in Fixtures, au \in Auths}
     \cup {[name |-> "Migrate", data |-> d, auth |-> au] : d \in DataKinds, au \in Auths}
     \cup (IF s.code = "native" /\ Target # "dummy" THEN {[name |-> "HookOpenWindow"]} ELSE {})
+    \* an entry naming the entry point without its argument is not an authorisation of this upgrade / migration
+    \cup {[name |-> "Upgrade", new |-> "Ftriv", auth |-> {}, scopedAuth |-> {s.owner}, keepArgs |-> <<>>],
+          [name |-> "Migrate", data |-> "unit", auth |-> {}, scopedAuth |-> {s.owner}, keepArgs |-> <<>>],
+          [name |-> "Migrate", data |-> "str", auth |-> {}, scopedAuth |-> {s.owner}, keepArgs |-> <<>>]}
     \cup {[name |-> "TransferOwnership", new |-> n, auth |-> {s.owner}] : n \in {"owner0", "bob"}}
     \cup {[name |-> "UpgraderUpgrade", new |-> f, version |-> v, data |-> d, authUp |-> p[1], authMig |-> p[2]] :
-            f \in Fixtures, v \in {"0.1.0", "0.2.0", "9.9.9"}, d \in DataKinds,
+            f \in Fixtures \cup {"Fnover"}, v \in {"0.1.0", "0.2.0", "9.9.9"}, d \in DataKinds,
             p \in {<<{s.owner}, {s.owner}>>, <<{s.owner}, {}>>, <<{}, {s.owner}>>, <<{}, {}>>,
                    <<{"mallory"}, {"mallory"}>>, <<{s.owner}, {"mallory"}>>}}
 
